@@ -246,12 +246,23 @@ def check_merge(rec: core.Recorder, *, op: str, pre: dict, res: dict, amount, ax
                 fail("runs are not `amount` adjacent bins each (last run shorter)", ["bins"], axis_checked=ax, groups=groups[:8], expected=want[:8])
         ef = np.stack([np.take(ef, range(a, b), axis=ax).sum(axis=ax) for a, b in groups], axis=ax) if groups else ef
         ee = np.stack([np.take(ee, range(a, b), axis=ax).sum(axis=ax) for a, b in groups], axis=ax) if groups else ee
-    if rf.shape != ef.shape or not np.allclose(rf, ef, rtol=1e-12, atol=0):
+    _rd = np.dtype(res["dtype"])
+    _rtol = max(1e-12, 2 * float(np.finfo(_rd).eps)) if _rd.kind == "f" else 1e-12  # one rounding into a narrow float content type
+    if rf.shape != ef.shape or not np.allclose(rf, ef, rtol=_rtol, atol=0):
         fail("contents of the merged bins are not the sums of their runs", ["frequencies"], got=rf.ravel()[:10], expected=ef.ravel()[:10])
-    if re_.shape != ee.shape or not np.allclose(re_, ee, rtol=1e-12, atol=0):
+    if re_.shape != ee.shape or not np.allclose(re_, ee, rtol=_rtol, atol=0):
         fail("errors2 of the merged bins are not the sums of their runs", ["errors2"], got=re_.ravel()[:10], expected=ee.ravel()[:10])
     for k in ("underflow", "overflow", "inner_missed", "missed", "dtype", "name", "axis_names", "keep_missed"):
         if k in pre and pre[k] != res.get(k):
+            if k == "dtype":
+                # the sums of a run may not fit a compact content type: then (and only then) the type is widened losslessly
+                d0, d1 = np.dtype(pre["dtype"]), np.dtype(res.get("dtype"))
+                top = float(np.iinfo(d0).max) if d0.kind in "iu" else float(np.finfo(d0).max)
+                biggest = max(float(np.max(rf, initial=0)), float(np.max(re_, initial=0)))
+                if np.can_cast(d0, d1) and biggest > top:
+                    continue
+            if k in ("underflow", "overflow", "inner_missed", "missed") and pre[k] != "nan" and res.get(k) != "nan" and float(pre[k]) == float(res.get(k)):
+                continue
             fail(f"merge_bins changed {k}", [k], before=pre[k], after=res.get(k))
 
 
